@@ -1,5 +1,7 @@
 """Engine M checks for the statistics code: C11 (split R-hat), C13 (trackers / progress R-hat), C12 (ESS)."""
 import itertools
+import math
+import random
 
 import numpy as np
 import z3
@@ -115,7 +117,7 @@ def c11_split_rhat(out, tier, seed):
                 # non-interference: the parameter's R-hat mentions only that parameter's draws
                 own = set(str(arr[ci, t, d].z()) for ci in range(c) for t in range(n))
                 used = set(str(x) for x in z3util_vars(impl.z()))
-                u.holds(ctx, "R-hat of a parameter does not depend on the other parameters' values", used <= own, None, inst)
+                u.holds(ctx, "R-hat of a parameter does not depend on the other parameters' values", used <= own, replay, inst)
     u.done()
 
 
@@ -238,7 +240,7 @@ def c13_trackers(out, tier, seed):
                 return replay_trackers(model, init, steps, m, p, k, which)
             for c in range(m):
                 st = stats[c]
-                u.holds(ctx, "tracker count equals the number of updates", st.get("n") == k, None, inst)
+                u.holds(ctx, "tracker count equals the number of updates", st.get("n") == k, lambda mo: replay(mo, which="n"), inst)
                 # acceptance rate: EMA (weight ALPHA = the f32 nearest 0.01) of 'state differs from previous state'
                 prev = init[c]
                 for t in range(k):
@@ -317,6 +319,10 @@ def replay_trackers(model, init, steps, m, p, k, which):
         spec = {}
         for prof, res in nat.items():
             if not isinstance(res, dict) or "chains" not in res:
+                continue
+            if which == "n":
+                if any(ch.get("n") != k for ch in res["chains"]):
+                    bad.append(prof)
                 continue
             for d in range(p):
                 chains = [[sts[t][c * p + d] for t in range(k)] for c in range(m)]
@@ -452,34 +458,41 @@ def c12_ess(out, tier, seed):
                     rho.append(Num(1) - (w[d] - avg) / v[d])
                 # Geyer's initial positive, monotone sequence over pairs (0,1), (2,3), ...; which pairs are positive /
                 # clamped is read off the path condition (the implementation branches on exactly these comparisons)
-                total = Num(0)
-                prev = (rho[0] + rho[1]) if n >= 2 else Num(0)
-                undecided = False
-                for k in range(0, n - 1, 2):
+                # the oracle's own case analysis: a comparison the implementation's path condition already decides is
+                # followed, one it leaves open (e.g. a pair sum of exactly 0 under an equivalent `<` / `<=` cut) forks the
+                # oracle, and the equality is then demanded under the fork's extra assumptions
+                def geyer(k, prev, total, extra):
+                    if k >= n - 1:
+                        yield total, extra
+                        return
                     pt = rho[k] + rho[k + 1]
-                    pos = decide(eng, ctx, pt.gt(0))
-                    if pos is None:
-                        undecided = True
-                        break
-                    if not pos:
-                        break
-                    over = decide(eng, ctx, pt.gt(prev))
-                    if over is None:
-                        undecided = True
-                        break
-                    if over:
-                        pt = prev
-                    prev = pt
-                    total = total + pt
-                if undecided:
-                    u.holds(ctx, "the ESS computation branches on the sign and monotonicity of Geyer's pair sums", False,
-                            replay_ess_factory(m, n, p, d, xs), inst)
-                    continue
-                tau = Num(-1) + total * 2
-                want = (Num(1) / tau) * (m * n)
-                u.equal(ctx, "ESS = (half-chains x length) / tau with tau = -1 + 2 * sum of Geyer's positive, monotone pair sums of "
-                        "rho_t = 1 - (W - mean autocovariance_t)/var+", r.a[d], want, replay_ess_factory(m, n, p, d, xs), inst,
-                        [tau.z() != 0])
+                    for pos in (True, False):
+                        c1 = pt.gt(0) if pos else z3.Not(pt.gt(0))
+                        ex1 = extra + [c1]
+                        if eng.check_unsat(ctx, z3.And(ex1), 20000)[0] == "unsat":
+                            continue
+                        if not pos:
+                            yield total, ex1
+                            continue
+                        for over in (True, False):
+                            c2 = pt.gt(prev) if over else z3.Not(pt.gt(prev))
+                            ex2 = ex1 + [c2]
+                            if eng.check_unsat(ctx, z3.And(ex2), 20000)[0] == "unsat":
+                                continue
+                            q = prev if over else pt
+                            for res_ in geyer(k + 2, q, total + q, ex2):
+                                yield res_
+                first = (rho[0] + rho[1]) if n >= 2 else Num(0)
+                for total, extra in geyer(0, first, Num(0), []):
+                    tau = Num(-1) + total * 2
+                    want = (Num(1) / tau) * (m * n)
+                    ax_t = [tau.z() != 0] + extra
+                    if tau.concrete and tau.v != 0:
+                        # the implementation's tau is a term that only *equals* this constant on the fork: tie the abstracted
+                        # reciprocal to its value there
+                        ax_t.append(mirsym._INV(mirsym.zreal(tau.v)) == mirsym.zreal(1 / tau.v))
+                    u.equal(ctx, "ESS = (half-chains x length) / tau with tau = -1 + 2 * sum of Geyer's positive, monotone pair sums of "
+                            "rho_t = 1 - (W - mean autocovariance_t)/var+", r.a[d], want, replay_ess_factory(m, n, p, d, xs), inst, ax_t)
     mirsym.MUL_MODE["mode"] = "exact"
     # algorithm selection rule
     marks = []
@@ -709,6 +722,53 @@ def replay_ess_factory(m, n, p, d, xs):
 # ------------------------------------------------------------------------------------------------
 # C11: run summary (basic_stats) over the reals: min / max / median / mean / std of the finite values
 # ------------------------------------------------------------------------------------------------
+def replay_summary(model, xs):
+    """real basic_stats on the model's values and on a few fixed data sets, against min / max / mean / ddof-1 std and the
+    middle-order-statistic median"""
+    n = len(xs)
+    cands = []
+    try:
+        cands.append([fnum(zval(model, x.z())) for x in xs])
+    except Exception:
+        pass
+    rnd = random.Random(11)
+    cands += [[round(rnd.uniform(-5, 5), 3) for _ in range(n)] for _ in range(2)]
+    cands += [[3.0, 1.0, 2.0, 5.0, 4.0, 0.5, 7.25][:max(n, 1)], [2.0, 9.0, 4.0, 4.0, 1.0, 6.0]]
+    tried = []
+    for data in cands:
+        d32 = [float(np.float32(v)) for v in data]
+        if not d32:
+            continue
+        case = {"case": "basic_stats", "data": d32}
+        nat = native(case)
+        m = sum(d32) / len(d32)
+        sd = math.sqrt(sum((v - m) ** 2 for v in d32) / (len(d32) - 1)) if len(d32) > 1 else None
+        srt = sorted(d32)
+        bad = []
+        for prof, r in nat.items():
+            if not isinstance(r, dict) or "min" not in r:
+                if isinstance(r, dict) and r.get("panic"):
+                    bad.append(prof)
+                continue
+            try:
+                g = {k: float(r[k]) for k in ("min", "max", "median", "mean", "std")}
+            except (TypeError, ValueError):
+                g = None
+            ok = g is not None and g["min"] == srt[0] and g["max"] == srt[-1] and approx_eq(g["mean"], m, 1e-5, 1e-6)
+            if ok and sd is not None:
+                ok = approx_eq(g["std"], sd, 1e-4, 1e-6)
+            if ok:
+                le = sum(1 for v in d32 if v <= g["median"])
+                ge = sum(1 for v in d32 if v >= g["median"])
+                ok = g["median"] in d32 and le >= (len(d32) + 1) // 2 and ge >= len(d32) // 2
+            if not ok:
+                bad.append(prof)
+        tried.append({"case": case, "native": nat})
+        if bad:
+            return True, {"case": case, "native": nat, "reproduced_in": bad}
+    return False, {"tried": tried[:2]}
+
+
 def c11_summary(out, tier, seed):
     eng = mir_load.load_engine()
     sizes = [1, 3, 4] if tier == "quick" else [1, 2, 3, 4, 5]
@@ -768,19 +828,22 @@ def c11_summary(out, tier, seed):
             xs, st = res
             inst = "%d values" % n
             zs = [x.z() for x in xs]
+
+            def rp(model, xs=xs):
+                return replay_summary(model, xs)
             mn, mx, med = st.get("min").z(), st.get("max").z(), st.get("median").z()
             u.holds(ctx, "summary min / max are the true minimum and maximum",
                     z3.And(z3.And([mn <= z for z in zs]), z3.Or([mn == z for z in zs]), z3.And([mx >= z for z in zs]), z3.Or([mx == z for z in zs])),
-                    None, inst)
+                    rp, inst)
             le = z3.Sum([z3.If(z <= med, 1, 0) for z in zs])
             ge = z3.Sum([z3.If(z >= med, 1, 0) for z in zs])
-            u.holds(ctx, "summary median is a middle order statistic", z3.And(z3.Or([med == z for z in zs]), le >= (n + 1) // 2, ge >= n // 2, le + ge >= n + 1), None, inst)
+            u.holds(ctx, "summary median is a middle order statistic", z3.And(z3.Or([med == z for z in zs]), le >= (n + 1) // 2, ge >= n // 2, le + ge >= n + 1), rp, inst)
             mu = mean(xs)
-            u.equal(ctx, "summary mean is the arithmetic mean", st.get("mean"), mu, None, inst)
+            u.equal(ctx, "summary mean is the arithmetic mean", st.get("mean"), mu, rp, inst)
             if n >= 2:
                 ss = None
                 for x in xs:
                     dd = (x - mu) * (x - mu)
                     ss = dd if ss is None else ss + dd
-                u.equal(ctx, "summary std is the sample standard deviation (ddof 1)", st.get("std"), sqrt(ss / (n - 1)), None, inst)
+                u.equal(ctx, "summary std is the sample standard deviation (ddof 1)", st.get("std"), sqrt(ss / (n - 1)), rp, inst)
     u.done()
